@@ -62,7 +62,7 @@ func init() {
 	reg(&checkSpec{
 		ID: "C01", Harness: "eng", Inst: storagePkgs, Level: "exploration", Classes: []string{"C01:"},
 		Cfgs: []cfgSpec{
-			{Name: "concurrent", Cfg: "clients=3,wdel=0,wdm=0,noreopen", Gating: true, Share: 4},
+			{Name: "concurrent", Cfg: "clients=3,wdel=0,wdm=0,noreopen,stallden=400", Gating: true, Share: 4},
 			{Name: "with-reopen", Cfg: "clients=2,wdel=0,wdm=0", Gating: true, Share: 2},
 			{Name: "concurrent-shard-close", Cfg: "clients=3,wdel=0,wdm=0,wcreopen=2,noreopen", Gating: true, Share: 1},
 		},
@@ -78,9 +78,10 @@ func init() {
 	reg(&checkSpec{
 		ID: "C03", Harness: "eng", Inst: storagePkgs, Level: "exploration", Classes: []string{"C03:"},
 		Cfgs: []cfgSpec{
-			{Name: "delete-vs-background", Cfg: "clients=3,wdel=5,wdm=1,wsnap=3,noreopen", Gating: true, Share: 4},
+			{Name: "delete-vs-background", Cfg: "clients=3,wdel=5,wdm=1,wsnap=3,noreopen,stallden=400", Gating: true, Share: 4},
 			{Name: "delete-then-reopen", Cfg: "clients=2,wdel=5,wdm=1", Gating: true, Share: 2},
 			{Name: "delete-then-crash", Cfg: "clients=1,wdel=5,wdm=1,imgcap=6,cutden=40,noreopen,nosettle", Gating: true, Share: 2},
+			{Name: "concurrent-writers-snapshots-deletes-then-crash", Cfg: "clients=3,wdel=5,wdm=1,wsnap=4,imgcap=6,cutden=40,noreopen,nosettle,stallden=400", Gating: true, Share: 2},
 		},
 		QuickSecs: 60, ThoroughSecs: 900, MaxRunsPerProc: 200,
 		Rule:   "one case = one generated multi-client write/delete/read/snapshot/compaction program under one seeded schedule (plus sampled crash images in the crash configuration); non-trivial = at least 4 operations and one context switch; distinct = distinct hash of (operations, context-switch sequence, crash cuts)",
@@ -92,7 +93,7 @@ func init() {
 		ID: "C02", Harness: "eng", Inst: storagePkgs, Level: "fault_enumeration", Classes: []string{"C02:", "crash"},
 		Cfgs: []cfgSpec{
 			{Name: "crash-single-client", Cfg: "clients=1,imgcap=10,cutden=25,noreopen,nosettle,wreopen=1", Gating: true, Share: 4},
-			{Name: "crash-concurrent", Cfg: "clients=3,imgcap=6,cutden=60,wrace=3,noreopen,nosettle", Gating: true, Share: 2},
+			{Name: "crash-concurrent", Cfg: "clients=3,imgcap=6,cutden=60,wrace=3,noreopen,nosettle,stallden=400", Gating: true, Share: 2},
 			{Name: "power-loss-single-client", Cfg: "clients=1,imgcap=10,cutden=25,noreopen,nosettle,wreopen=1,powerloss", Gating: true, Share: 2},
 			{Name: "crash-at-every-event-short-histories", Cfg: "clients=1,imgcap=400,cutden=1,maxops=10,noreopen,nosettle,nosecondcrash", Gating: true, Share: 3, ThoroughOnly: true},
 			{Name: "power-loss-at-every-event-short-histories", Cfg: "clients=1,imgcap=400,cutden=1,maxops=10,noreopen,nosettle,nosecondcrash,powerloss", Gating: true, Share: 2, ThoroughOnly: true},
@@ -138,9 +139,9 @@ func init() {
 		ID: "C39", Harness: "eng", Inst: storagePkgs, Level: "exploration", Race: true,
 		Classes: []string{"C39:", "C01:", "C03:", "deadlock", "busy-wait", "crash", "panic"},
 		Cfgs: []cfgSpec{
-			{Name: "union-workload-race-detector", Cfg: "clients=3,wdel=3,wdm=1,wsnap=3,wfull=2,wbulk=1,wtyped=2,noreopen,settle_s=15", Gating: true, Share: 3},
+			{Name: "union-workload-race-detector", Cfg: "clients=3,wdel=3,wdm=1,wsnap=3,wfull=2,wbulk=1,wtyped=2,noreopen,settle_s=15,stallden=400", Gating: true, Share: 3},
 			{Name: "union-with-reopen", Cfg: "clients=3,wdel=3,wdm=1,wsnap=2,wfull=1,wbulk=1,settle_s=15", Gating: true, Share: 1},
-			{Name: "union-with-backups-and-concurrent-shard-close", Cfg: "clients=3,wdel=3,wdm=1,wsnap=3,wfull=1,wbulk=1,wbackup=1,wcreopen=2,noreopen,settle_s=15", Gating: true, Share: 2},
+			{Name: "union-with-backups-and-concurrent-shard-close", Cfg: "clients=3,wdel=3,wdm=1,wsnap=3,wfull=1,wbulk=1,wbackup=1,wcreopen=2,wcompen=1,noreopen,settle_s=15", Gating: true, Share: 2},
 		},
 		QuickSecs: 100, ThoroughSecs: 900, MaxRunsPerProc: 100,
 		Rule:   "one case = one generated concurrent program (writes, typed writes, reads, range deletes, measurement drops, snapshots, forced full compactions, bulk writes, backups, close+reopen of the shard under load) under one seeded schedule, harness built with the race detector; non-trivial = at least 4 operations and one context switch; distinct = distinct hash of (operations, context-switch sequence)",
@@ -154,7 +155,7 @@ func init() {
 	reg(&checkSpec{
 		ID: "C38", Harness: "eng", Inst: storagePkgs, Level: "exploration", Classes: []string{"C38:"},
 		Cfgs: []cfgSpec{
-			{Name: "backup-quiescent", Cfg: "clients=1,wbackup=4,wdel=2,wdm=1,wsnap=2,wfull=1,noreopen,nosettle", Gating: true, Share: 3},
+			{Name: "backup-quiescent", Cfg: "clients=1,wbackup=4,wdel=2,wdm=1,wsnap=2,wfull=1,wcompen=2,noreopen,nosettle", Gating: true, Share: 3},
 			{Name: "backup-with-concurrent-writers", Cfg: "clients=3,wbackup=3,wdel=1,wdm=0,wsnap=2,noreopen,nosettle", Gating: false, Share: 1},
 		},
 		QuickSecs: 50, ThoroughSecs: 900, MaxRunsPerProc: 150,
@@ -183,10 +184,12 @@ func init() {
 	reg(&checkSpec{
 		ID: "C16", Harness: "store", Inst: storagePkgs, Level: "exploration", Classes: []string{"C16:", "C17:resurrected", "C17:lost", "C17:phantom", "C17:stale"},
 		Cfgs: []cfgSpec{
-			{Name: "predicate-deletes", Cfg: "clients=1,wdel=8,wread=3,wmeta=0,nosettle", Gating: true, Share: 1},
+			{Name: "predicate-deletes", Cfg: "clients=1,wdel=8,wread=3,wmeta=0,nosettle", Gating: true, Share: 3},
+			// third measurement named "host=b,x y": a measurement name carries '=' unescaped in the key and the matcher once took it for a tag host (C16-F1, fixed)
+			{Name: "predicate-deletes-measurement-name-with-equals", Cfg: "clients=1,wdel=8,wread=3,wmeta=0,nosettle,eqname", Gating: true, Share: 1},
 		},
 		QuickSecs: 40, ThoroughSecs: 600, MaxRunsPerProc: 150,
-		Rule:   "one case = one generated single-client history dominated by predicate deletes followed by full reads. A predicate is a tree of depth <= 3 of AND / OR over = / != comparisons on _measurement, host, region and rack, built as the protobuf tree and compiled with tsm1.NewProtobufPredicate; the 12 series of the domain differ in their tag KEYS (one tag set has no region, one carries the extra tag rack) and one measurement name and several tag values need escaping (space, comma, equals sign). Two oracles: (direct) at every delete the compiled predicate and a clone of it are asked about the key of every series of the domain, built as tsdb.PredicateSeriesIDIterator builds it, and must agree with the reference evaluator; (end to end) the set of series whose points disappear must equal the evaluator's verdict (read oracle of C17). non-trivial = at least 4 operations; distinct = distinct hash of (operations incl. predicate text, schedule)",
+		Rule:   "one case = one generated single-client history dominated by predicate deletes followed by full reads. A predicate is a tree of depth <= 3 of AND / OR over = / != comparisons on _measurement, host, region and rack, built as the protobuf tree and compiled with tsm1.NewProtobufPredicate; the 12 series of the domain differ in their tag KEYS (one tag set has no region, one carries the extra tag rack) and one measurement name and several tag values need escaping (space, comma, equals sign); a second configuration names the third measurement `host=b,x y` (a measurement name carries its equals sign unescaped in the key, in front of a tag key the predicates compare). Two oracles: (direct) at every delete the compiled predicate and a clone of it are asked about the key of every series of the domain, built as tsdb.PredicateSeriesIDIterator builds it, and must agree with the reference evaluator; (end to end) the set of series whose points disappear must equal the evaluator's verdict (read oracle of C17). non-trivial = at least 4 operations; distinct = distinct hash of (operations incl. predicate text, schedule)",
 		Probes: []string{"predicate_direct_checks", "delete_with_or", "delete_open_corner", "metadata_checks"},
 		Real:   storeReal, Stub: engStub[:4],
 		Assumptions: []string{"predicates are compiled from the protobuf tree (the text parser of the delete API rejects OR); the predicate space is sampled, not enumerated",
